@@ -108,12 +108,15 @@ package extendeddaemonsetreplicaset
 //@   modifies nothing
 //@   ensures only-reads: forall k int :: lognew(k) ==> logverb(k) == "List" || logverb(k) == "Get"
 //@   ensures result1 == nil ==> result != nil && fresh(result) && result.NewStatus != nil && fresh(result.NewStatus)
+//@             && (result.NewStatus.Conditions == nil || freshroot(result.NewStatus.Conditions))
+//@             && (result.PodByNodeName == nil || fresh(result.PodByNodeName))
 //@ func (*Reconciler).applyStrategy
 //@   trusted
 //@   logs
 //@   requires r != nil && strategyParams != nil && strategyParams.NewStatus != nil
 //@   modifies strategyParams.NewStatus.Conditions, elems(strategyParams.NewStatus.Conditions), mapof(strategyParams.PodByNodeName)
-//@   ensures result != nil && fresh(result) && result.NewStatus != nil && freshroot(result.NewStatus)
+//@   ensures result != nil && fresh(result) && result.NewStatus != nil && fresh(result.NewStatus)
+//@             && (result.NewStatus.Conditions == nil || freshroot(result.NewStatus.Conditions))
 //@   ensures no-pod-creation-or-deletion-by-update: forall k int :: lognew(k) ==> logverb(k) == "List" || logverb(k) == "Patch" || logverb(k) == "Delete"
 //@
 //@ func (*Reconciler).Reconcile
